@@ -13,6 +13,6 @@ git apply "$D/patch.diff"
 /venv/bin/python "$D/demo.py" "$R" >/dev/null 2>&1; echo "demo patched exit=$? (want 1)"
 VERIF_REPO="$R" python3 /verif/tools/baseline.py | head -1
 for P in "$@"; do
-  OUT=$(cd /verif && VERIF_REPO="$R" ./check "$P" --tier "${TIER:-quick}" --no-evidence 2>/dev/null); RC=$?
+  OUT=$(cd /verif && VERIF_STOP_AT_FIRST=1 VERIF_REPO="$R" ./check "$P" --tier "${TIER:-quick}" --no-evidence 2>/dev/null); RC=$?
   echo "$P exit=$RC violations=$(echo "$OUT" | grep -c '^VIOLATION') $(echo "$OUT" | grep 'counterexample' | head -1 | cut -c1-230)"
 done
